@@ -93,6 +93,17 @@ def _destinations(P, G, f, expr, depth=0):
         if isinstance(t, ast.Name):
             return _local_flow(P, G, f, t.id, depth)
         return []
+    if isinstance(p, ast.Tuple) and isinstance(parent(p), ast.Assign) and parent(p).value is p and \
+            len(parent(p).targets) == 1 and isinstance(parent(p).targets[0], (ast.Tuple, ast.List)) and \
+            len(parent(p).targets[0].elts) == len(p.elts):
+        # a, b, c = (x, y, z): element-wise
+        t = parent(p).targets[0].elts[p.elts.index(expr)]
+        a = _self_attr(f, t)
+        if a is not None:
+            return [(f, a, parent(p))]
+        if isinstance(t, ast.Name):
+            return _local_flow(P, G, f, t.id, depth)
+        return []
     if isinstance(p, ast.Return) and p.value is expr:
         return _through_return(P, G, f, None, 1, depth)
     if isinstance(p, ast.Tuple) and isinstance(parent(p), ast.Return):
